@@ -190,6 +190,17 @@ def r16_5(chk):
                        expected='an index variable (or a temporary computed from one) is used only inside the loop that defines it',
                        got='%s read at line %d with no definition in an enclosing loop' % (var, line),
                        detail='%s is defined inside a loop but used at line %d outside it: the value left over from an earlier iteration is read' % (var, line))
+            scoped = {v for v, l in hits}
+            stale = {}
+            for var, line, dline in kernel.stale_iteration_reads(fn):
+                if var not in scoped:
+                    stale.setdefault(var, (line, dline))
+            for var, (line, dline) in sorted(stale.items()):
+                chk.ob('R16.5', False, rel, name, 'read of %s before its definition in the same iteration' % var, line=line,
+                       expected='a per-iteration local is assigned before it is read in the loop body',
+                       got='%s read at line %d, assigned at line %d of the same loop body' % (var, line, dline),
+                       detail='the read sees the value of the previous iteration (in the first iteration: whatever an earlier loop left behind)')
+            hits = hits or list(stale)
             if not hits and name in ('fk0', 'fk0_cyl', 'fkG0', 'fkG0_cyl'):
                 chk.ob('R16.5', True, rel, name, 'loop scope', sample='%s.%s: every index/temporary is used inside its defining loop' % (os.path.basename(rel), name))
     chk.floor('kernel files scanned by the loop-scope rule', nfiles, 60)
@@ -199,12 +210,17 @@ def r16_5(chk):
 def run(chk):
     chk.level = LEVEL
     chk.trusted = ['python3 ast', 'E1 lowering']
-    chk.assumptions = ['NOT decided: that k0 equals the Hessian of the shell strain energy (closed-form trigonometric section integrals), positive semi-definiteness, '
-                       'and the cone(alpha=0) == cylinder identity; only the named structural clauses below are']
+    chk.assumptions = ['R16.7 decides the energy identity with the section radius frozen at its mid-section value, exactly as the cone kernels integrate (the documented section quadrature); '
+                       'the limit s -> infinity is not part of the statement decided',
+                       'positive semi-definiteness is decided only as a consequence of R16.7 (a Gram form of a PSD laminate matrix) for the classical models that pass it; not for the first-order-shear models',
+                       'amplitude 2 (load asymmetry) is always prescribed (ConeCyl._rebuild raises otherwise) and is left out of R16.7']
     r16_1(chk)
     r16_3(chk)
     r16_5(chk)
-    from . import c16iso
+    from . import c16iso, c16deep
     c16iso.r16_2(chk)
+    c16deep.run(chk)
     chk.explanation = ('degree analysis of the geometric-stiffness emits, symmetrisation/dispatch/binding rules of the orchestration, '
-                       'loop-scope rule over all kernels, isotropic short-cut kernels against the general ones under the isotropic substitution')
+                       'loop-scope and stale-iteration-read rules over all kernels, isotropic short-cut kernels against the general ones under the isotropic substitution, '
+                       'cone kernels at zero angle telescoped over the sections against the cylinder kernels (Fourier normal form), '
+                       'classical kernels against the exact strain-energy Hessian built from the package\'s own cfstrain functions')
